@@ -213,5 +213,5 @@ Section Wf.
 
   (* the GPOS fragment of the round-trip theorem *)
   Definition gpos_lookup_wf_all (lk : lookup) : bool :=
-    gpos_lookup_wf lk || gpos3_lookup_wf lk.
+    gpos_lookup_wf lk || gpos3_lookup_wf lk || gpos4_lookup_wf lk.
 End Wf.
